@@ -74,6 +74,31 @@ def nil_invariant(ctx, meta, env):
             ctx.fail("an element marked xsi:nil carries content", meta, [n["name"], n.get("text")], "an empty element")
 
 
+def reserved_attr_names():
+    """-> None when a derived-type object with attributes called 'type' and 'nil' is sent with those attributes AND
+    xsi:type naming the derived type; else what was sent."""
+    schema = ('<xsd:complexType name="B"><xsd:sequence><xsd:element name="a" type="xsd:string"/></xsd:sequence>'
+              '<xsd:attribute name="type" type="xsd:string"/><xsd:attribute name="nil" type="xsd:string"/>'
+              '</xsd:complexType><xsd:complexType name="D"><xsd:complexContent><xsd:extension base="x:B">'
+              '<xsd:sequence><xsd:element name="b" type="xsd:string" nillable="true"/></xsd:sequence></xsd:extension>'
+              '</xsd:complexContent></xsd:complexType><xsd:element name="f"><xsd:complexType><xsd:sequence>'
+              '<xsd:element name="o" type="x:B"/></xsd:sequence></xsd:complexType></xsd:element>')
+    c = wsdlkit.client(wsdlkit.wsdl_doc(schema, "f", None), nosend=True)
+    d = c.factory.create("{%s}D" % wsdlkit.TNS)
+    d.a, d.b, d._type, d._nil = "1", None, "home", "zz"
+    env = wsdlkit.envelope_bytes(c.service.f(d))
+    root = xmlread.parse(env)
+    o = [n for n in xmlread.walk(root) if n["name"][1] == "o"][0]
+    b = [n for n in xmlread.walk(root) if n["name"][1] == "b"][0]
+    try:
+        xt = xmlread.resolve_qname(o, o["attrs"].get((xmlread.XSI, "type")) or "")
+    except xmlread.XmlError:
+        xt = None
+    ok = (xt is not None and list(xt) == [wsdlkit.TNS, "D"] and o["attrs"].get((None, "type")) == "home"
+          and o["attrs"].get((None, "nil")) == "zz" and b["attrs"].get((xmlread.XSI, "nil")) in ("true", "1"))
+    return None if ok else env.decode("utf-8")[-400:]
+
+
 def defaults_and_untyped(ctx):
     """Two shapes outside the family. (a) elements with a declared default and/or nillable, given None or a value:
     value -> its text; None -> omitted when optional, else the default text, else xsi:nil when nillable, else an
@@ -120,6 +145,12 @@ def defaults_and_untyped(ctx):
             if got != exp:
                 ctx.fail("None / default / nillable members are not written as the schema prescribes", meta, got, exp)
             nil_invariant(ctx, meta, env)
+    # (c) attributes whose names coincide with the schema-instance attributes (type, nil) on a derived-type object
+    if reserved_attr_names():
+        ctx.fail("an attribute named like a schema-instance attribute (type / nil) is not written on its owner next to "
+                 "xsi:type / xsi:nil", {"stream": "reserved-attribute-names"}, reserved_attr_names(),
+                 "o: xsi:type=D, type='home', nil='zz'; b: xsi:nil")
+    ctx.case(("reserved-attribute-names",), True)
     # (b) untyped leaves in rpc/encoded
     schema = ('<xsd:complexType name="S"><xsd:sequence><xsd:element name="v" type="xsd:anyType"/>'
               '<xsd:element name="w" type="xsd:anyType" minOccurs="0"/></xsd:sequence></xsd:complexType>')
@@ -192,6 +223,8 @@ ENC_SCHEMA = ('<xsd:import namespace="http://schemas.xmlsoap.org/soap/encoding/"
 
 def witness(ctx, k):
     kind = (k.get("witness") or {}).get("kind")
+    if kind == "reserved-attribute-names":
+        return reserved_attr_names() is not None
     if kind not in ("derived-in-array", "array-item-lexical"):
         return None
     w = wsdlkit.wsdl_doc(ENC_SCHEMA, style="rpc", use="encoded",
